@@ -965,14 +965,15 @@ func ruleR03_9(p *Program, r *Report) {
 		r.Undecided("R03.9", "anchors", "-", "inflate.readLitDistLens exists", "not found")
 		return
 	}
-	var hdist *ssa.Parameter
+	// the declared counts are the function's integer parameters (hdist, hlit - whatever they are called)
+	var counts []*ssa.Parameter
 	for _, prm := range fn.Params {
-		if prm.Name() == "hdist" {
-			hdist = prm
+		if intSize(prm.Type()) > 0 {
+			counts = append(counts, prm)
 		}
 	}
-	if hdist == nil {
-		r.Undecided("R03.9", "anchors", "-", "readLitDistLens has the parameter hdist", "not found")
+	if len(counts) == 0 {
+		r.Undecided("R03.9", "anchors", "-", "readLitDistLens has integer parameters for the declared counts", "not found")
 		return
 	}
 	// success exit: a store of a nil error / return whose error may be nil, reached without passing an error assignment.
@@ -1023,7 +1024,13 @@ func ruleR03_9(p *Program, r *Report) {
 					}
 					// x <= y : x the cursor (a phi), y mentions hdist
 					ly := linearize(y)
-					if !ly.ok || ly.terms["param:"+hdist.Name()] == 0 {
+					mentions := false
+					for _, prm := range counts {
+						if ly.ok && ly.terms["param:"+prm.Name()] != 0 {
+							mentions = true
+						}
+					}
+					if !mentions {
 						continue
 					}
 					if _, isPhi := stripConv(x).(*ssa.Phi); isPhi {
@@ -1195,6 +1202,7 @@ func ruleR11_5(p *Program, r *Report) {
 		}
 	}
 	fromCmp := map[string]bool{}
+	inverted := map[string]bool{} // the field is assigned `result != errEndInput`: waiting is behind the false edge
 	for _, fn := range p.Funcs() {
 		if fn.Pkg != sp {
 			continue
@@ -1213,10 +1221,13 @@ func ruleR11_5(p *Program, r *Report) {
 					continue
 				}
 				good := false
-				if bo, ok := s.Val.(*ssa.BinOp); ok && bo.Op == token.EQL {
+				if bo, ok := s.Val.(*ssa.BinOp); ok && (bo.Op == token.EQL || bo.Op == token.NEQ) {
 					for _, v := range []ssa.Value{bo.X, bo.Y} {
 						if g := globalLoad(v); g != nil && g.Name() == "errEndInput" {
 							good = true
+							if bo.Op == token.NEQ {
+								inverted[sel] = true
+							}
 						}
 					}
 				}
@@ -1244,11 +1255,13 @@ func ruleR11_5(p *Program, r *Report) {
 			key := shortFn(fn) + "|" + lab.get(calleeLabel(c))
 			ok := false
 			for _, ft := range dominatingFacts(c) {
-				if ft.Y != nil || ft.Op != token.EQL {
+				if ft.Y != nil || (ft.Op != token.EQL && ft.Op != token.NEQ) {
 					continue
 				}
 				if _, sel, isL := fieldLoad(ft.X); isL && starvedField[sel] && fromCmp[sel] {
-					ok = true
+					if (ft.Op == token.EQL) != inverted[sel] {
+						ok = true
+					}
 				}
 			}
 			r.Check(ok, "R11.5", key, p.InstrPos(c), "the inflater waits for input only after the decoder reported end of input", "this Peek also runs after a step that stopped for another reason (output window full, block end): whatever is left of the stream may sit complete in the bit buffer, yet the Reader waits for another source byte before delivering it - a flushed prefix or the end of the stream is withheld from a source that has nothing more to give")
@@ -1654,11 +1667,11 @@ func ruleR08_4(p *Program, r *Report) {
 			key := shortFn(fn) + "|" + lab.get("clear ."+gz.Sticky)
 			okFact := false
 			for _, f := range dominatingFacts(st) {
-				if f.Y != nil || f.Op != token.EQL {
+				if f.Y != nil || (f.Op != token.EQL && f.Op != token.NEQ) {
 					continue
 				}
-				if root, sel, isL := fieldLoad(f.X); isL && root == recv && isBoolType(f.X.Type()) && strings.Contains(strings.ToLower(sel), "multi") {
-					okFact = true
+				if root, _, isL := fieldLoad(f.X); isL && root == recv && isBoolType(f.X.Type()) {
+					okFact = true // behind a test of the Reader's mode flag (whatever it is called)
 				}
 			}
 			r.Check(okFact, id, key, p.InstrPos(st), "the recorded end of a member is cleared only when the Reader continues with the next member", "the sticky error is set to nil where multistream mode is not known: in single-member mode a Read after io.EOF would read on into the bytes after the member")
@@ -1972,6 +1985,46 @@ func ruleR16_5(p *Program, r *Report) {
 			// the block of the call must be reachable only through edges that pin the level to 1, 2 or HuffmanOnly:
 			// every predecessor edge chain from the entry passes an equality edge on the level with one of those constants
 			okAll := pinnedLevel(p, fn, c, level, map[int64]bool{1: true, 2: true, huff: true})
+			if !okAll {
+				// a range test: dominating facts bound the level to [1, 2]
+				lo, hi := int64(-1<<31), int64(1<<31)
+				for _, ft := range dominatingFacts(c) {
+					if ft.Y == nil {
+						continue
+					}
+					k, isK := constInt(ft.Y)
+					isLv := false
+					for _, leaf := range p.valueSources(ft.X) {
+						if leaf == ssa.Value(level) {
+							isLv = true
+						}
+					}
+					if !isK || !isLv {
+						continue
+					}
+					switch ft.Op {
+					case token.GEQ:
+						if k > lo {
+							lo = k
+						}
+					case token.GTR:
+						if k+1 > lo {
+							lo = k + 1
+						}
+					case token.LEQ:
+						if k < hi {
+							hi = k
+						}
+					case token.LSS:
+						if k-1 < hi {
+							hi = k - 1
+						}
+					}
+				}
+				if lo >= 1 && hi <= 2 {
+					okAll = true
+				}
+			}
 			r.Check(okAll, "R16.5", key, p.InstrPos(c), "an accelerated compressor is built only for levels 1, 2 and HuffmanOnly", "this constructor call is reachable for other level values (a default arm or a range test): an out-of-range level would be accepted where compress/flate rejects it")
 		}
 	}
